@@ -3,12 +3,15 @@ package c20
 import (
 	"bytes"
 	"fmt"
+	"io"
 	"net"
 	"net/http"
 	"net/http/httptest"
 	"net/url"
+	"runtime"
 	"strconv"
 	"strings"
+	"sync"
 	"testing"
 	"time"
 
@@ -681,3 +684,172 @@ func TestC20ProxyLogging(t *testing.T) {
 }
 
 var _ = bytes.NewBuffer
+
+// ---------------------------------------------------------------------------
+// the status in the access log is the one the client received, also when the
+// upstream sends informational responses first; real sockets on both sides.
+
+func TestC20ProxyFinalStatus(t *testing.T) {
+	type upSpec struct {
+		early  []int
+		status int
+		body   string
+	}
+	var mu sync.Mutex
+	var cur upSpec
+	up := httptest.NewServer(http.HandlerFunc(func(w http.ResponseWriter, r *http.Request) {
+		mu.Lock()
+		s := cur
+		mu.Unlock()
+		for _, c := range s.early {
+			w.Header().Set("Link", "</style.css>; rel=preload")
+			w.WriteHeader(c)
+		}
+		w.WriteHeader(s.status)
+		io.WriteString(w, s.body)
+	}))
+	defer up.Close()
+	upURL, _ := url.Parse(up.URL)
+	lw := &lockedWriter{}
+	l, err := logger.New(lw, "$response_status $response_body_size $request_uri")
+	if err != nil {
+		t.Fatal(err)
+	}
+	front := httptest.NewServer(&proxy.HTTPProxy{
+		Transport: &http.Transport{},
+		Lookup:    func(*http.Request) *route.Target { return &route.Target{Service: "svc", URL: upURL} },
+		Logger:    l,
+	})
+	defer front.Close()
+	n := 0
+	hx.Check(t, hx.Scale(300, 10000), func(t *rapid.T) {
+		n++
+		s := upSpec{status: rapid.SampledFrom([]int{200, 201, 404, 500, 503}).Draw(t, "status"), body: rapid.StringMatching(`[a-z]{0,64}`).Draw(t, "body")}
+		for i, k := 0, rapid.IntRange(0, 2).Draw(t, "nearly"); i < k; i++ {
+			s.early = append(s.early, rapid.SampledFrom([]int{103, 102, 199}).Draw(t, "early"))
+		}
+		mu.Lock()
+		cur = s
+		mu.Unlock()
+		lw.reset()
+		path := fmt.Sprintf("/r%d", n)
+		resp, err := http.Get(front.URL + path)
+		if err != nil {
+			t.Fatalf("request failed: %v", err)
+		}
+		body, _ := io.ReadAll(resp.Body)
+		resp.Body.Close()
+		hx.Eval()
+		if resp.StatusCode != s.status || string(body) != s.body {
+			t.Fatalf("client saw %d %q, upstream sent %d %q after informational %v", resp.StatusCode, body, s.status, s.body, s.early)
+		}
+		want := fmt.Sprintf("%d %d %s\n", s.status, len(s.body), path)
+		var got string
+		for i := 0; i < 400; i++ { // the line is written after the response has been sent
+			if got = lw.String(); got != "" {
+				break
+			}
+			time.Sleep(500 * time.Microsecond)
+		}
+		if got != want {
+			t.Fatalf("access log line %q, the client received %q (upstream sent informational responses %v first)", got, want, s.early)
+		}
+		if len(s.early) > 0 {
+			hx.NonTrivial(fmt.Sprintf("early|%v|%d|%d", s.early, s.status, len(s.body)))
+			hx.Class("informational-before-final")
+		}
+	})
+}
+
+type lockedWriter struct {
+	mu sync.Mutex
+	b  bytes.Buffer
+}
+
+func (w *lockedWriter) Write(p []byte) (int, error) {
+	w.mu.Lock()
+	defer w.mu.Unlock()
+	return w.b.Write(p)
+}
+func (w *lockedWriter) String() string { w.mu.Lock(); defer w.mu.Unlock(); return w.b.String() }
+func (w *lockedWriter) reset()         { w.mu.Lock(); w.b.Reset(); w.mu.Unlock() }
+
+// ---------------------------------------------------------------------------
+// concurrent requests finishing at the same time: exactly one intact line each
+
+type slowWriter struct {
+	mu    sync.Mutex
+	lines []string
+	yield bool
+}
+
+func (w *slowWriter) Write(p []byte) (int, error) {
+	// the logger serialises writers; take a copy the way a file or pipe would
+	s := string(p)
+	if w.yield {
+		runtime.Gosched()
+		time.Sleep(20 * time.Microsecond)
+	}
+	w.mu.Lock()
+	w.lines = append(w.lines, s)
+	w.mu.Unlock()
+	return len(p), nil
+}
+
+func TestC20ConcurrentLogging(t *testing.T) {
+	hx.Check(t, hx.Scale(20, 200), func(t *rapid.T) {
+		items := genFormat(t)
+		format := formatString(items)
+		G := rapid.IntRange(2, 32).Draw(t, "goroutines")
+		per := hx.Pick(150, 1500)
+		w := &slowWriter{yield: rapid.Bool().Draw(t, "slowwriter")}
+		l, err := logger.New(w, format+" #$header.X-Goroutine")
+		if err != nil {
+			t.Fatalf("format %q rejected: %v", format, err)
+		}
+		items = append(items, item{src: " #", kind: kText}, item{src: "$header.X-Goroutine", kind: kOther})
+		events := make([]*logger.Event, G)
+		want := map[string]int{}
+		for g := range events {
+			events[g] = genEvent(t)
+			events[g].Request.Header.Set("X-Goroutine", fmt.Sprintf("g%02d", g))
+		}
+		var wg sync.WaitGroup
+		start := make(chan struct{})
+		for g := 0; g < G; g++ {
+			wg.Add(1)
+			go func(g int) {
+				defer wg.Done()
+				<-start
+				for i := 0; i < per; i++ {
+					l.Log(events[g])
+				}
+			}(g)
+		}
+		close(start)
+		wg.Wait()
+		hx.EvalN(G * per)
+		accept := map[string]int{}
+		for g := range events {
+			accept[render(items, events[g], false)] = g
+			accept[render(items, events[g], true)] = g
+		}
+		counts := make([]int, G)
+		for _, line := range w.lines {
+			g, ok := accept[line]
+			if !ok {
+				t.Fatalf("a log line written under concurrency is not the line of any request: %q\nformat %q, %d goroutines", line, format, G)
+			}
+			counts[g]++
+		}
+		_ = want
+		for g, c := range counts {
+			// two goroutines may by chance log identical lines only if their events render identically; the goroutine tag prevents that
+			if c != per {
+				t.Fatalf("goroutine %d logged %d events, %d intact lines of it were written (format %q, %d goroutines)", g, per, c, format, G)
+			}
+		}
+		hx.NonTrivial(fmt.Sprintf("conc|%s|%d", format, G))
+		hx.Class("concurrent-logging")
+	})
+}
